@@ -116,6 +116,7 @@ class PairChecker:
         self.parent_invalid = 0
         self.values_checked = 0
         self.dump_fail = 0
+        self.own_roundtrip_fail = 0
         self.known = []  # (p_leafs, c_leafs, signature) of violations found on smaller pairs
 
     def _sig(self, p_ts, c_ts, exc=None):
@@ -186,6 +187,14 @@ class PairChecker:
                         P.parse_raw(j) if how.startswith("parse_raw") else P.parse_obj(json.loads(j))
                     rec.check(True, "", "")
                 except Exception as e:
+                    # if the child itself cannot re-read its own serialisation this is a C12 round-trip failure
+                    # (e.g. offset-unit quantities), not an override problem: count and skip
+                    try:
+                        with watchdog(10):
+                            C.parse_raw(j)
+                    except Exception:
+                        self.own_roundtrip_fail += 1
+                        return
                     rec.check(False, self._sig(p_ts, c_ts, e),
                               f"plugin check accepts `class C(P): f: {sl.tstr(c_ts)}` over `P.f: {sl.tstr(p_ts)}` without declared override, but C accepts "
                               f"f={sl.short(repr(v), 60)} (json {sl.short(j, 60)}) and P.{how} rejects it: {type(e).__name__}: {sl.short(str(e).replace(chr(10), ' | '), 140)}",
@@ -456,7 +465,7 @@ def run(tier: str, seed: int) -> dict:
              f"({anc.n_pairs} instance/ancestor pairs, {anc.n_dump_fail} instances skipped because their own json() raises [C12]); "
              f"(b) {pc.pairs} (P_type,C_type) pairs [{'; '.join(reached)}; {nm} make_mandatory pairs]: {pc.accepted} accepted by the plugin check, {pc.refused} refused, "
              f"{pc.parent_invalid} with a parent type the check refuses; {pc.values_checked} child-accepted corpus values re-parsed by the parent "
-             f"({pc.dump_fail} skipped because the child's json() raises [C12]); (c) 3 extra-policy cases; stop: {stopped}")  # fmt: skip
+             f"({pc.dump_fail} skipped because the child's json() raises, {pc.own_roundtrip_fail} because the child cannot re-read its own json [both C12]); (c) 3 extra-policy cases; stop: {stopped}")  # fmt: skip
     return rec.result(
         rule="(a) case = (schema, digest of raw instance dict), non-trivial if valid, serialisable and the schema has ancestors; (b) case = ordered pair of type "
              "specs (+ make_mandatory route), non-trivial if the plugin check accepts a child whose field type differs from the parent's; every such pair is "
